@@ -72,7 +72,15 @@ def c17_swapinfo(line):
     args, res = line.split(' => ')
     stb, bb, rst, rb, xb2st, xst2b = [int(x) for x in args.split(' ')]
     if res == 'err':
-        return None
+        # P12a: get_swap_info fails only where its checked arithmetic must: nothing bonded (division by
+        # zero), the bonded sum / the rewards total / the offered amount outside u128
+        conv_ = rb * xb2st // D
+        if stb + bb == 0 or stb + bb > U128MAX or conv_ > U128MAX or rst + conv_ > U128MAX:
+            return None
+        share_ = (rst + conv_) * stb // (stb + bb)
+        if rst <= share_ and (share_ - rst) * xst2b // D > U128MAX:
+            return None
+        return 'get_swap_info failed although %d + %d is bonded and every intermediate value fits u128' % (stb, bb)
     od, oa, ask = res.split(' ')
     oa = int(oa)
     conv = rb * xb2st // D
